@@ -88,7 +88,7 @@ def run(case):
     if kind == "slice":
         s = case["slice"]
         st = 1 if s.step is None else s.step
-        joined = abs(st) != 1
+        joined = st != 1      # any explicit step other than +1 goes through the stepped-slice path (a reversal included)
         tags.append("slice:stepped" if joined else "slice:unit")
         exp = attempt(lambda: v[s])
         a = attempt(lambda: r[s])
@@ -97,7 +97,7 @@ def run(case):
         # a stepped slice of an encoding that is itself not joined (result of a scalar ufunc / of a concatenation with equal values at the seam)
         s = case["slice"]
         st = 1 if s.step is None else s.step
-        joined = abs(st) != 1
+        joined = st != 1      # any explicit step other than +1 goes through the stepped-slice path (a reversal included)
         tags.append("slice:stepped" if joined else "slice:unit")
         if case["via"] == "concat":
             src = np.concatenate([r, r])
